@@ -584,18 +584,29 @@ func visitInstr(fr *frame, instr ssa.Instruction) continuation {
 	return kNext
 }
 
+// inBoundsTerm: 0 <= idx < n for an index of the width of its type. A length that the type cannot
+// reach (a byte indexing a 256-entry table) bounds nothing: the constant must not wrap to 0.
+func inBoundsTerm(f *TermFactory, s symv, n int) *Term {
+	w := s.t.w
+	if kindSigned(s.k) {
+		lo := f.Bin(OpSle, f.Const(w, 0), s.t)
+		if w < 64 && uint64(n) >= uint64(1)<<(w-1) {
+			return lo
+		}
+		return f.And(lo, f.Bin(OpSlt, s.t, f.Const(w, uint64(n))))
+	}
+	if w < 64 && uint64(n) >= uint64(1)<<w {
+		return f.True
+	}
+	return f.Bin(OpUlt, s.t, f.Const(w, uint64(n)))
+}
+
 // checkedIndex resolves an index value against a length, raising the Go
 // runtime panic when out of range (forking when symbolic).
 func (fr *frame) checkedIndex(idx value, n int) int {
 	if s, ok := idx.(symv); ok {
 		f := fr.f()
-		w := s.t.w
-		var inb *Term
-		if kindSigned(s.k) {
-			inb = f.And(f.Bin(OpSle, f.Const(w, 0), s.t), f.Bin(OpSlt, s.t, f.Const(w, uint64(n))))
-		} else {
-			inb = f.Bin(OpUlt, s.t, f.Const(w, uint64(n)))
-		}
+		inb := inBoundsTerm(f, s, n)
 		if !fr.i.p.Branch(inb) {
 			fr.rtPanic("index out of range [symbolic] with length %d", n)
 		}
@@ -619,11 +630,7 @@ func (fr *frame) indexRead(elems []value, idx value) value {
 	n := len(elems)
 	w := s.t.w
 	var inb *Term
-	if kindSigned(s.k) {
-		inb = f.And(f.Bin(OpSle, f.Const(w, 0), s.t), f.Bin(OpSlt, s.t, f.Const(w, uint64(n))))
-	} else {
-		inb = f.Bin(OpUlt, s.t, f.Const(w, uint64(n)))
-	}
+	inb = inBoundsTerm(f, s, n)
 	if !fr.i.p.Branch(inb) {
 		fr.rtPanic("index out of range [symbolic] with length %d", n)
 	}
